@@ -480,22 +480,66 @@ def check_pure(ctx, eff: Effects, res: Result, dotted: str, roots=("self",), con
 
 
 def check_deepcopy(ctx, res: Result, dotted: str, rule="E-FRESHCOPY"):
+    """copy() hands back an object that shares nothing mutable with self: `copy.deepcopy(self)`, or a hand-built copy
+    in which every table with mutable values (adjacency lists, metadata dicts) is deep-copied / rebuilt per value.
+    A table of mutable values that is copied one level deep (`dict(self._t)`, `self._t.copy()`) is reported."""
+    from .kinds import Atom, Dct, Lst, St
+
     fi = ctx.require(dotted)
     v = ctx.view(fi)
     rets = [n for n in walk_no_nested(fi.node) if isinstance(n, ast.Return) and n.value is not None]
     if not rets:
         res.violation(rule, fi.short, "return", "deep", "copy() returns nothing", loc(fi, fi.node))
         return
+    tables = ctx.interp.class_tables.get(fi.cls.name, {}) if fi.cls is not None else {}
+
+    def mutable_values(tab):
+        k = tables.get(tab)
+        return isinstance(k, Dct) and (isinstance(k.val, (Lst, St, Dct)) or (isinstance(k.val, Atom) and k.val.name == "META"))
+
+    def shallow_of_self_table(e):
+        """the table of self that `e` copies one level deep (or aliases), else None"""
+        if is_self_attr(e):
+            return e.attr
+        if isinstance(e, ast.Call):
+            fn = norm(e.func)
+            if fn in ("dict", "copy.copy", "list", "set") and len(e.args) == 1 and is_self_attr(e.args[0]):
+                return e.args[0].attr
+            if isinstance(e.func, ast.Attribute) and e.func.attr == "copy" and is_self_attr(e.func.value) and not e.args:
+                return e.func.value.attr
+        if isinstance(e, ast.Dict) and len(e.keys) == 1 and e.keys[0] is None and is_self_attr(e.values[0]):
+            return e.values[0].attr
+        if isinstance(e, ast.DictComp) and len(e.generators) == 1:
+            g = e.generators[0]
+            it = g.iter
+            if isinstance(it, ast.Call) and isinstance(it.func, ast.Attribute) and it.func.attr == "items" and is_self_attr(it.func.value) and isinstance(g.target, ast.Tuple) and len(g.target.elts) == 2 and isinstance(e.value, ast.Name) and isinstance(g.target.elts[1], ast.Name) and e.value.id == g.target.elts[1].id:
+                return it.func.value.attr  # {k: v for k, v in self._t.items()}: the values are the same objects
+        return None
+
     for r in rets:
         e = v.resolve(r.value)
         deep = isinstance(e, ast.Call) and norm(e.func) in ("copy.deepcopy", "deepcopy") and len(e.args) >= 1 and isinstance(e.args[0], ast.Name) and e.args[0].id == "self"
         shallow = (isinstance(e, ast.Call) and norm(e.func) in ("copy.copy", "copy")) or (isinstance(e, ast.Name) and e.id == "self")
         if deep:
             res.ok(rule, fi.short, norm(r), "deep", loc(fi, r))
-        elif shallow:
+            continue
+        if shallow:
             res.violation(rule, fi.short, norm(r), "deep", "copy() does not return copy.deepcopy(self): tables / metadata dicts are shared between the copy and the original", loc(fi, r))
-        else:
-            res.unknown(rule, fi.short, norm(r), "deep", "the returned object is not recognised as copy.deepcopy(self)", loc(fi, r))
+            continue
+        # hand-built copy: the stores into the returned object's tables
+        if isinstance(r.value, ast.Name):
+            obj = r.value.id
+            shared = []
+            for n in walk_no_nested(fi.node):
+                if isinstance(n, ast.Assign) and len(n.targets) == 1 and isinstance(n.targets[0], ast.Attribute) and isinstance(n.targets[0].value, ast.Name) and n.targets[0].value.id == obj:
+                    src = shallow_of_self_table(n.value)
+                    if src is not None and mutable_values(src):
+                        shared.append((n, src))
+            for n, src in shared:
+                res.violation(rule, fi.short, norm(n), "deep:" + src, f"the copy receives a one-level copy of {src}, whose values are mutable (lists / metadata dicts): they are shared between the copy and the original, so an in-place update of one shows up in the other", loc(fi, n))
+            if shared:
+                continue
+        res.unknown(rule, fi.short, norm(r), "deep", "the returned object is not recognised as copy.deepcopy(self)", loc(fi, r))
 
 
 def check_shared_literals(ctx, res: Result, dotted: str, rule="E-SHARED"):
